@@ -519,6 +519,20 @@ Section WindowFacts.
 End WindowFacts.
 
 (* ---------- downsample ------------------------------------------------------------- *)
+Lemma firstn_app_len : forall {X} n (a t : list X), length a = n -> firstn n (a ++ t) = a.
+Proof. intros; subst; apply firstn_app_exact. Qed.
+Lemma skipn_app_len : forall {X} n (a t : list X), length a = n -> skipn n (a ++ t) = t.
+Proof. intros; subst; apply skipn_app_exact. Qed.
+
+Lemma reshape_cons : forall {X} f b (hd tl : list X), length hd = b -> 0 < b ->
+  reshape (S f) b (hd ++ tl) = match reshape f b tl with Some r => Some (hd :: r) | None => None end.
+Proof.
+  intros X f b hd tl H Hb. destruct hd as [|x hd']; [simpl in H; lia|].
+  simpl app. cbn [reshape]. change (x :: hd' ++ tl) with ((x :: hd') ++ tl).
+  rewrite firstn_app_len, skipn_app_len by assumption. rewrite H, Nat.eqb_refl.
+  destruct (Nat.eqb_spec b 0); [lia|]. reflexivity.
+Qed.
+
 Lemma reshape_blocks : forall {X} b k fuel (r : list X),
   0 < b -> b * k <= length r -> b * k <= fuel -> reshape fuel b (firstn (b * k) r) = Some (blocks k b r).
 Proof.
@@ -530,13 +544,8 @@ Proof.
       f_equal. f_equal. lia. }
     assert (Lb : length (firstn b r) = b) by (apply firstn_length_le; lia).
     destruct fuel as [|f]; [lia|].
-    rewrite E. destruct (firstn b r) as [|x fb] eqn:Fb; [simpl in Lb; lia|].
-    simpl reshape. rewrite <- Fb.
-    rewrite firstn_app, firstn_firstn, Nat.min_id, Lb, Nat.sub_diag. simpl firstn at 2. rewrite app_nil_r.
-    rewrite firstn_length_le by lia. rewrite Nat.eqb_refl. destruct (Nat.eqb_spec b 0); [lia|]. simpl andb. cbv iota.
-    rewrite <- Lb at 3. rewrite skipn_app_exact. rewrite IH; [reflexivity|lia| |].
-    + rewrite skipn_length. lia.
-    + lia.
+    rewrite E, reshape_cons by assumption. rewrite IH; [reflexivity|lia| |lia].
+    rewrite skipn_length. lia.
 Qed.
 
 Theorem downsample_row_spec : forall (by_ : Z) (a : qrow), (0 < by_)%Z ->
@@ -558,7 +567,7 @@ Qed.
 Lemma blocks_length : forall {X} k b (l : list X), length (blocks k b l) = k.
 Proof. induction k; simpl; intros; [reflexivity|]. now rewrite IHk. Qed.
 Theorem downsample_row_depth : forall b (r : qrow), length (downsample_row b r) = length r / b.
-Proof. intros. unfold downsample_row. now rewrite map_length, blocks_length. Qed.
+Proof. intros. unfold downsample_row. rewrite map_length. apply blocks_length. Qed.
 (* block k of the output is the NaN-ignoring mean of samples [k*by, (k+1)*by) *)
 Theorem downsample_formula : forall b (pre blk post : qrow) k,
   0 < b -> length pre = k * b -> length blk = b -> k < (length (pre ++ blk ++ post)) / b ->
@@ -580,8 +589,8 @@ Theorem downsample_spec_L1 : forall (by_ : Z) (s : list qrow) d,
   downsample1 by_ s = Some (downsample (Z.to_nat by_) s).
 Proof.
   intros by_ s d Hb Hne Hd. unfold downsample1, downsample.
-  rewrite <- (smap_spec _ (downsample_row (Z.to_nat by_)) (d / Z.to_nat by_) s Hne).
-  - unfold smap. destruct s; [congruence|]. f_equal.
+  etransitivity; [|apply (smap_spec Q (downsample_row (Z.to_nat by_)) (d / Z.to_nat by_) s Hne)].
+  - unfold smap. destruct s; [congruence|].
     (* the per-row functions agree *)
     assert (Ext : forall n cells i nc dp,
       smap_loop n (downsample_row1 by_) cells i nc dp
@@ -591,3 +600,48 @@ Proof.
     apply Ext.
   - intros c Hc. rewrite downsample_row_depth. now rewrite (Hd c Hc).
 Qed.
+
+(* ---------- concatenate (L0): row i of the result joins row i of every argument, so it commutes
+   with selecting / reordering the host rows of all arguments alike --------------------------- *)
+Section ConcatFacts.
+  Variable V : Type.
+  Notation row := (list (option V)).
+
+  Lemma map_seq_nth : forall {X Y} (F : X -> Y) (l : list X) d,
+    map (fun i => F (nth i l d)) (seq 0 (length l)) = map F l.
+  Proof.
+    intros X Y F l d. induction l as [|x l IH]; [reflexivity|].
+    simpl. f_equal. rewrite <- seq_shift, map_map. exact IH.
+  Qed.
+
+  Theorem concatenate_nth : forall n (ss : list (list row)) i, i < n ->
+    nth i (concatenate n ss) [] = concat (map (fun s => nth i s []) ss).
+  Proof.
+    intros n ss i Hi. unfold concatenate.
+    set (F := fun j => concat (map (fun s : list row => nth j s []) ss)).
+    rewrite nth_indep with (d' := F 0) by (rewrite map_length, seq_length; exact Hi).
+    rewrite (map_nth F), seq_nth by exact Hi. reflexivity.
+  Qed.
+
+  Theorem concatenate_commutes : forall n ps (ss : list (list row)),
+    Forall (fun p => p < n) ps ->
+    concatenate (length ps) (map (take_rows ps) ss) = take_rows ps (concatenate n ss).
+  Proof.
+    intros n ps ss H.
+    transitivity (map (fun i => (fun p => nth p (concatenate n ss) []) (nth i ps 0)) (seq 0 (length ps)));
+      [|unfold take_rows; apply (map_seq_nth (fun p => nth p (concatenate n ss) []) ps 0)].
+    unfold concatenate at 1. apply map_ext_in. intros i Hi. apply in_seq in Hi.
+    assert (Hp : nth i ps 0 < n). { rewrite Forall_forall in H. apply H, nth_In. lia. }
+    rewrite concatenate_nth by exact Hp. f_equal. rewrite map_map. apply map_ext. intros s.
+    unfold take_rows. set (G := fun p => nth p s []).
+    rewrite nth_indep with (d' := G 0) by (rewrite map_length; lia).
+    now rewrite (map_nth G).
+  Qed.
+
+  Theorem concatenate_depth : forall n (ss : list (list row)) i, i < n ->
+    length (nth i (concatenate n ss) []) = fold_right Nat.add 0 (map (fun s => length (nth i s [])) ss).
+  Proof.
+    intros. rewrite concatenate_nth by assumption. induction ss as [|s ss IH]; [reflexivity|].
+    simpl. unfold sample in *. now rewrite app_length, IH.
+  Qed.
+End ConcatFacts.
